@@ -2,7 +2,7 @@ SPECIFICATION TSpec
 CONSTANTS
   PosPeriod = 50
   NegPeriod = 0
-  MaxClock = 1000000
+  MaxClock = 2000
   MaxCalls = 1000000
   AllowRChoices = {{}}
   AllowSChoices = {{}}
@@ -18,7 +18,7 @@ CONSTANTS
   MaxDrops = 0
   Handlers = {"h1", "h2", "h3"}
   CancelHandlers = {"h1", "h2", "h3"}
-  MaxSend = 4
+  MaxSend = 8
   MaxRetx = 1000
   Cap = 512
   SecondCheck = TRUE
